@@ -227,9 +227,14 @@ int asm_create_bin_file(assemblyline_t al, const char *file_name) {
 
   FAIL_IF_MSG(write_ptr == NULL, "failed to create binary file")
 
-  fwrite(buffer, sizeof(uint8_t), len, write_ptr);
-
-  fclose(write_ptr);
+  // the file is only complete if every byte was written and flushed
+  size_t written = 0;
+  if (len > 0)
+    written = fwrite(buffer, sizeof(uint8_t), len, write_ptr);
+  bool incomplete = len < 0 || written != (size_t)len;
+  if (fclose(write_ptr) != 0)
+    incomplete = true;
+  FAIL_IF_MSG(incomplete, "failed to write binary file\n")
 
   return EXIT_SUCCESS;
 }
